@@ -51,7 +51,7 @@ func (l Lin) addConst(k int64) Lin {
 	return n
 }
 func (l Lin) scale(k int64) Lin { return newLin().add(l, k) }
-func (l Lin) isConst() bool    { return len(l.coef) == 0 }
+func (l Lin) isConst() bool     { return len(l.coef) == 0 }
 func (l Lin) atoms() []int {
 	var ks []int
 	for k := range l.coef {
